@@ -84,8 +84,10 @@ def with_dumpm(ops, h="h0"):
     return out
 
 
-def reloc_history(rng, tag):
-    """relocation-heavy histories on a small problem: few columns, rows with entries in many (distinct) columns, coefficient
+def reloc_history(rng, tag, repeat=False):
+    """repeat=True: rows list some column twice or three times (the reference semantics stores every entry) - on a nearly full
+    store this is where matrix_addrow as found runs into exit(1) and where the repaired loop falls back to matrix_addrow_end.
+    relocation-heavy histories on a small problem: few columns, rows with entries in many (distinct) columns, coefficient
     edits that create new entries, deletes that leave holes - columns fill their gaps, move behind the used part, and the
     array is rebuilt (matrix_addrow_end) once the free tail (EXTRA_MAT = 1000 slots) is used up"""
     ops = ["CREATE h0 p MIN"]
@@ -100,6 +102,9 @@ def reloc_history(rng, tag):
         if r < 0.40 or m == 0:
             k = rng.randint(max(1, n // 2), n) if n else 0
             cols = rng.sample(range(n), k) if n else []
+            if repeat and cols and rng.random() < 0.7:
+                cols += [rng.choice(cols) for _ in range(rng.randint(1, 3))]
+                rng.shuffle(cols)
             ops.append("ADDROW h0 %s %s - %d%s" % (small(), rng.choice("LGE"), len(cols), "".join(" %d %s" % (j, small()) for j in cols)))
             m += 1
         elif r < 0.65 and n:
@@ -126,6 +131,137 @@ def reloc_history(rng, tag):
     return ops
 
 
+def dec(fr):
+    """a rational with denominator 1, 2, 4, 5 or 10 as a decimal literal of the file formats"""
+    from fractions import Fraction
+    fr = Fraction(fr)
+    if fr.denominator == 1:
+        return str(fr.numerator)
+    s = "%.4f" % float(fr)
+    return s.rstrip("0")
+
+
+def read_case(rng, tag, fmt, outdir):
+    """A problem file for mpq_QSread_prob and what it says, for the model: READ h0 <file> <fmt> <objsense> nc nr cols rows with the
+    columns' RAW lists in the order of rawlpdata's linked lists (ILLraw_add_col_coef prepends: reverse file order), duplicates of one
+    (row, column) pair NOT merged - the model (Store.RawLoad) merges as buildMatrix does.  Features: repeated variables in one row,
+    explicit zeros, columns that occur in the objective only (empty columns), MPS: extra 'N' rows (dropped, with the columns that occur
+    only there), every sense, bounds."""
+    from fractions import Fraction as Fr
+    num = lambda: rng.choice([Fr(1), Fr(2), Fr(-1), Fr(3), Fr(-4), Fr(5, 2), Fr(1, 2), Fr(-7, 4), Fr(0), Fr(12), Fr(3, 10)])
+    nz = lambda: rng.choice([Fr(1), Fr(2), Fr(-1), Fr(3), Fr(-4), Fr(5, 2), Fr(1, 2), Fr(-7, 4), Fr(12)])
+    nvar = rng.randint(1, 9)
+    nrow = rng.randint(1, 8)
+    nextra = rng.randint(0, 2) if fmt == "MPS" else 0          # additional 'N' rows
+    vars_ = ["x%s%d" % (tag, j) for j in range(nvar)]
+    rows = []                                                   # (name, sense, rhs, [(var index, coef)])
+    for i in range(nrow):
+        k = rng.randint(1, min(nvar, 5))
+        terms = [(j, num() if rng.random() < 0.25 else nz()) for j in rng.sample(range(nvar), k)]
+        if rng.random() < 0.5:
+            terms += [(rng.choice(terms)[0], nz()) for _ in range(rng.randint(1, 3))]     # the same variable again in this row
+            rng.shuffle(terms)
+        rows.append(("r%s%d" % (tag, i), rng.choice("LGE"), num(), terms))
+    extra = [("n%s%d" % (tag, i), [(j, nz()) for j in rng.sample(range(nvar), rng.randint(1, nvar))]) for i in range(nextra)]
+    obj = {j: nz() for j in range(nvar) if rng.random() < 0.6}
+    bounds = {}
+    for j in range(nvar):
+        r = rng.random()
+        if r < 0.2: bounds[j] = (Fr(-3), Fr(5))
+        elif r < 0.3: bounds[j] = (None, None)                  # free
+        elif r < 0.4: bounds[j] = (Fr(0), Fr(7, 2))
+    maxi = fmt == "LP" and rng.random() < 0.4
+    # ---- the file, and the order in which the reader meets variables and coefficients
+    occ = {j: [] for j in range(nvar)}                          # per variable: (row index among non-N rows, coef) in file order
+    order = []                                                  # variables in the order the reader creates them
+    def meet(j):
+        if j not in order: order.append(j)
+    lines = []
+    if fmt == "LP":
+        if not obj:
+            obj[rows[0][3][0][0]] = Fr(1)
+        lines += ["Maximize" if maxi else "Minimize", " obj: " + " + ".join("%s %s" % (dec(c), vars_[j]) for j, c in obj.items()).replace("+ -", "- ")]
+        for j in obj: meet(j)
+        lines.append("Subject To")
+        for i, (nm, sn, rhs, terms) in enumerate(rows):
+            lines.append(" %s: %s %s %s" % (nm, " + ".join("%s %s" % (dec(c), vars_[j]) for j, c in terms).replace("+ -", "- "), {"L": "<=", "G": ">=", "E": "="}[sn], dec(rhs)))
+            for j, c in terms:
+                meet(j); occ[j].append((i, c))
+        bl = []
+        for j, (lo, up) in bounds.items():
+            if j in order:
+                bl.append(" %s free" % vars_[j] if lo is None else " %s <= %s <= %s" % (dec(lo), vars_[j], dec(up)))
+        if bl: lines += ["Bounds"] + bl
+        lines.append("End")
+    else:
+        lines += ["NAME p%s" % tag, "ROWS", " N obj"]
+        # interleave the extra N rows with the constraint rows
+        seq = [("c", i) for i in range(nrow)] + [("n", i) for i in range(nextra)]
+        rng.shuffle(seq)
+        for kind, i in seq:
+            lines.append(" %s %s" % (("N", extra[i][0]) if kind == "n" else (rows[i][1], rows[i][0])))
+        lines.append("COLUMNS")
+        for j in range(nvar):
+            ent = []
+            if j in obj: ent.append(("obj", obj[j], None))
+            for i, (nm, sn, rhs, terms) in enumerate(rows):
+                for (jj, c) in terms:
+                    if jj == j: ent.append((nm, c, i))
+            for (nm, terms) in extra:
+                for (jj, c) in terms:
+                    if jj == j: ent.append((nm, c, None))
+            rng.shuffle(ent)
+            if not ent:
+                continue
+            meet(j)
+            for a in range(0, len(ent), 2):
+                lines.append("    %s  %s" % (vars_[j], "  ".join("%s %s" % (nm, dec(c)) for nm, c, _ in ent[a:a + 2])))
+            for nm, c, i in ent:
+                if i is not None: occ[j].append((i, c))
+        lines.append("RHS")
+        for nm, sn, rhs, _ in rows:
+            if rhs != 0: lines.append("    RHS  %s %s" % (nm, dec(rhs)))
+        bl = []
+        for j, (lo, up) in bounds.items():
+            if j in order:
+                bl += [" FR BND %s" % vars_[j]] if lo is None else [" LO BND %s %s" % (vars_[j], dec(lo)), " UP BND %s %s" % (vars_[j], dec(up))]
+        if bl: lines += ["BOUNDS"] + bl
+        lines.append("ENDATA")
+    os.makedirs(outdir, exist_ok=True)
+    path = os.path.join(outdir, "rd_%s.%s" % (tag, fmt.lower()))
+    with open(path, "w") as f:
+        f.write("\n".join(lines) + "\n")
+    # ---- what the file says: columns used in the objective or in a non-N row survive (whichColsAreUsed), in the reader's order
+    used = [j for j in order if j in obj or occ[j]]
+    q = lambda fr: qs(fr) if fr is not None else None
+    cols = []
+    for j in used:
+        lo, up = bounds.get(j, (Fr(0), None))
+        if j in bounds and bounds[j][0] is None: lo, up = None, None
+        raw = list(reversed(occ[j]))
+        cols.append("%s %s %s %s %d%s" % (vars_[j], qs(obj.get(j, Fr(0))), "-inf" if lo is None else qs(lo), "inf" if up is None else qs(up),
+                                           len(raw), "".join(" %d %s" % (i, qs(c)) for i, c in raw)))
+    if fmt == "MPS":
+        rows_out = [rows[i] for kind, i in seq if kind == "c"]
+        # row numbers follow the ROWS section: renumber
+        newno = {}
+        for kind, i in seq:
+            if kind == "c": newno[i] = len(newno)
+        cols = []
+        for j in used:
+            lo, up = bounds.get(j, (Fr(0), None))
+            if j in bounds and bounds[j][0] is None: lo, up = None, None
+            raw = [(newno[i], c) for i, c in reversed(occ[j])]
+            cols.append("%s %s %s %s %d%s" % (vars_[j], qs(obj.get(j, Fr(0))), "-inf" if lo is None else qs(lo), "inf" if up is None else qs(up),
+                                               len(raw), "".join(" %d %s" % (i, qs(c)) for i, c in raw)))
+    else:
+        rows_out = rows
+    line = "READ h0 %s %s %s %d %d %s %s" % (path, fmt, "MAX" if maxi else "MIN", len(cols), len(rows_out), " ".join(cols),
+                                             " ".join("%s %s %s" % (nm, sn, qs(rhs)) for nm, sn, rhs, _ in rows_out))
+    dup = sum(1 for j in used if len(set(i for i, _ in occ[j])) < len(occ[j]))
+    return line, lines, dict(dup_cols=dup, empty_cols=sum(1 for j in used if not occ[j]), dropped_cols=nvar - len(used), n_rows=nextra)
+
+
 SEED_LP = "LOAD h0 p MIN 2 2 a 1 0 inf 2 0 2 1 1 b -1 -inf 4 1 0 3 r0 L 4 r1 G 1"
 ALPHABET = [
     "NEWCOL h0 3 0 1 -", "ADDCOL h0 1 0 inf c1 2 0 1 0 2", "ADDCOL h0 2 1 1 x3 1 1 0",
@@ -143,6 +279,10 @@ def main():
     build_repo()
     pr = ck.proofs()
     rng = ck.rng
+    variant = l2_variant()      # which matrix_addrow the library has; the extracted model runs the same variant
+    if variant == "unknown":
+        ck.violation("probe.txt", "CASE probe\nRESET\n" + "\n".join(ADDROW_PROBE) + "\n", "C06: on the probe history (a row repeating a column index, store nearly full) the library "
+                     "neither finishes with the reference answer nor stops in matrix_addrow: it matches neither variant of the model", match=dict(kind="probe"))
     T = ck.thorough()
     cases, meta = [], {}
     # (0) corpus: stored replays of earlier findings run first
@@ -171,6 +311,29 @@ def main():
     for i in range(60 if T else 6):
         cases.append(("m%d" % i, with_dumpm(reloc_history(rng, "m%d_" % i))))
         meta["m%d" % i] = ("relocation", None)
+    # (b3) the same with rows that repeat a column index, and the probe history itself
+    for i in range(40 if T else 5):
+        cases.append(("p%d" % i, with_dumpm(reloc_history(rng, "p%d_" % i, repeat=True))))
+        meta["p%d" % i] = ("relocation-repeated-columns", None)
+    cases.append(("probe", with_dumpm(ADDROW_PROBE)))
+    meta["probe"] = ("relocation-repeated-columns", None)
+    # (b4) the matrix built by the readers: generated LP / MPS files read by mpq_QSread_prob, then a short edit history on top
+    rd_stats = dict(files=0, dup_cols=0, empty_cols=0, dropped_cols=0, n_rows=0)
+    rd_dir = os.path.join(os.environ.get("QSX_OUT", os.path.join(VERIF, "out")), "tmp", "C06_read_%d" % ck.seed)
+    rd_text = {}
+    for i in range(400 if T else 40):
+        fmt = "LP" if i % 2 == 0 else "MPS"
+        line, text, st = read_case(rng, "f%d" % i, fmt, rd_dir)
+        for k_ in st: rd_stats[k_] += st[k_]
+        rd_stats["files"] += 1
+        ops = [line, "DUMP h0", "Q h0 counts"]
+        # a few edits on top (valid on any problem with a row and a column): after a read matfree = 1, so the first addition rebuilds the array
+        for o in ["CHGCOEF h0 0 0 3", "ADDROW h0 1 L - 2 0 1 0 2", "ADDCOL h0 1 0 inf - 1 0 2", "DELCOL h0 0", "DELROW h0 0"][:rng.randint(0, 5)]:
+            ops += [o, "DUMP h0"]
+        cid = "f%d" % i
+        rd_text[cid] = text
+        cases.append((cid, with_dumpm(ops) + ["Q h0 rows", "Q h0 cols", "Q h0 rownames", "Q h0 colnames"]))
+        meta[cid] = ("reader-" + fmt, None)
     # (c) bounded-exhaustive: every history of length <= L over the alphabet on the seed LP
     L = 3 if T else 2
     k = 0
@@ -276,7 +439,8 @@ def main():
             text = "C06: op %d `%s`: %s -- %s" % (k_, ops[k_][:80], kind, detail)
             last = small[-1].split()
             opkey = "counts" if kind == "nzcount" else (last[0] + ":" + last[2] if last[0] == "Q" and len(last) > 2 else last[0])
-            ck.violation("%s_%s.txt" % (kind, cid), "CASE replay\nRESET\n" + "\n".join(small) + "\n# %s\n" % text, text,
+            note = "".join("# file| %s\n" % l for l in rd_text.get(cid, []))
+            ck.violation("%s_%s.txt" % (kind, cid), "CASE replay\nRESET\n" + "\n".join(small) + "\n# %s\n" % text + note, text,
                          match=dict(kind=kind, op=opkey))
             if kind in ("dump", "payload", "valid-rejected", "missing", "rawstore"):
                 break
@@ -301,7 +465,7 @@ def main():
     ck.cov["max_sizes_reached"] = dict(rows=stats["max_rows"], cols=stats["max_cols"], nonzeros=stats["max_nz"], matsize=stats["max_matsize"])
     ck.cov["raw_store"] = dict(dumps_compared=stats["raw_dumps"], long_lines_compared_by_digest=stats["raw_digest_lines"], model_states_satisfying_lwf_check=stats["wf_true"],
                                lwf_check_skipped_large=stats["wf_skipped"], matsize_changes=stats["matsize_changes"], column_moves_observed=stats["relocations"],
-                               model_fault_states=stats["model_faults"], crash_predicted_by_L2_model=stats.get("crash_predicted_by_L2_model", []))
+                               reader_built=rd_stats, matrix_addrow_variant_found_by_probe=variant, model_fault_states=stats["model_faults"], crash_predicted_by_L2_model=stats.get("crash_predicted_by_L2_model", []))
     ck.cov["invalid_ops_accepted_by_library_deferred_to_C07"] = stats["deferred_to_C07"]
     ck.cov["harness_crashes"] = [dict(case=c, rc=rc) for c, rc, _ in crashes]
     ck.cov["traces_validated_against_impl"] = stats["ops"]
